@@ -283,6 +283,7 @@ pub fn run_case(c: &Case, st: &mut Stats) -> Option<(String, String)> {
     let fmt = fmt_of(&c.fmt);
     let doc = &c.doc.0;
     let bound = doc.len() + 16;
+    let stc = std::cell::RefCell::new(Stats::default());
     // (a) streaming reader under the delivery plan
     let r = guarded("read::read (streaming reader)", || {
         let s = match read::read_string(fmt, SimReader::new(doc.clone(), c.plan.clone())) {
@@ -290,15 +291,19 @@ pub fn run_case(c: &Case, st: &mut Stats) -> Option<(String, String)> {
             Err(_) => return Ok(vec![]),
         };
         let rd = SimReader::new(doc.clone(), c.plan.clone());
-        let mut st2 = Stats::default();
-        drain("streaming reader", read::read(fmt, rd, &s, c.slurp), bound, &mut st2)
+        drain("streaming reader", read::read(fmt, rd, &s, c.slurp), bound, &mut stc.borrow_mut())
     });
     let streamed = match r {
         Err(v) => return Some(v),
         Ok(Err(v)) => return Some(v),
         Ok(Ok(v)) => v,
     };
-    st.values += streamed.len() as u64;
+    {
+        let s2 = stc.borrow();
+        st.values += s2.values;
+        st.errors += s2.errors;
+        st.polled_after_end += s2.polled_after_end;
+    }
     // (b) slice parser
     let r = guarded("read::parse (slice parser)", || {
         let bytes = bytes::Bytes::from(doc.clone());
@@ -306,8 +311,7 @@ pub fn run_case(c: &Case, st: &mut Stats) -> Option<(String, String)> {
             Ok(s) => s.to_string(),
             Err(_) => return Ok(vec![]),
         };
-        let mut st2 = Stats::default();
-        drain("slice parser", read::parse(fmt, &bytes, &s, c.slurp), bound, &mut st2)
+        drain("slice parser", read::parse(fmt, &bytes, &s, c.slurp), bound, &mut stc.borrow_mut())
     });
     let parsed = match r {
         Err(v) => return Some(v),
@@ -381,26 +385,28 @@ pub fn run_case(c: &Case, st: &mut Stats) -> Option<(String, String)> {
 }
 
 fn from_filter(fmt: &str) -> Option<&'static jaq_all::data::Filter> {
-    use std::sync::OnceLock;
-    static FILTERS: OnceLock<BTreeMap<&'static str, jaq_all::data::Filter>> = OnceLock::new();
-    let m = FILTERS.get_or_init(|| {
-        let mut m = BTreeMap::new();
-        for (k, code) in [
-            ("json", "fromjson"),
-            ("yaml", "fromyaml"),
-            ("cbor", "tobytes | fromcbor"),
-            ("toml", "fromtoml"),
-            ("xml", "fromxml"),
-            ("csv", "fromcsv"),
-            ("tsv", "fromtsv"),
-        ] {
-            if let Ok(f) = jaq_all::data::compile(code) {
-                m.insert(k, f);
+    // per thread and leaked: the harness itself must not rely on `Filter: Send + Sync`
+    // (that bound is C19's subject; a tree without it must still build this driver)
+    thread_local! {
+        static FILTERS: &'static BTreeMap<&'static str, jaq_all::data::Filter> = {
+            let mut m = BTreeMap::new();
+            for (k, code) in [
+                ("json", "fromjson"),
+                ("yaml", "fromyaml"),
+                ("cbor", "tobytes | fromcbor"),
+                ("toml", "fromtoml"),
+                ("xml", "fromxml"),
+                ("csv", "fromcsv"),
+                ("tsv", "fromtsv"),
+            ] {
+                if let Ok(f) = jaq_all::data::compile(code) {
+                    m.insert(k, f);
+                }
             }
-        }
-        m
-    });
-    m.get(fmt)
+            Box::leak(Box::new(m))
+        };
+    }
+    FILTERS.with(|m| m.get(fmt))
 }
 
 // -----------------------------------------------------------------------------------------
